@@ -42,6 +42,7 @@ import MosVerif.Util
 -- @component limiter_listener MosVerif.Limiter.runListener
 -- @component limiter_gcrace MosVerif.Limiter.runGcRace
 -- @component limiter_clock MosVerif.Limiter.runClock
+-- @component limiter_cfg MosVerif.Limiter.runCfg
 namespace MosVerif.Limiter
 
 /-! ## constants -/
@@ -992,6 +993,26 @@ def runGcRace (case impl : String) : String × String :=
 
   case : `goroutines=<g> ms=<duration> lim=<int> burst=<int>`      out : `within=<0|1>`
 -/
+
+/-! ## line protocol: component `limiter_cfg`
+
+  A real router with the configured `limit` and `burst` (also a burst below the rate, or omitted) and one client
+  that sends n queries back to back; the harness compares the number admitted with `burst + rate × elapsed`
+  (`bucket_bound`: every admitted query costs at least one token) and reports `within`, and that the first query
+  of a fresh bucket is admitted (`atleast`).
+
+  case : `lim=<int> burst=<int> n=<queries>`      out : `within=<0|1> atleast=<0|1>`
+-/
+def runCfg (_case impl : String) : String × String :=
+  let it := words ((impl.splitOn " ## ").headD "")
+  ("within=1 atleast=1",
+    if impl == "panic" then "viol:panic"
+    else match kvNat it "within", kvNat it "atleast" with
+      | some w, some a =>
+        if w ≠ 1 then "viol:C15:more-than-configured-burst-plus-rate-times-window"
+        else if a ≠ 1 then "viol:C15:within-budget-client-refused"
+        else "ok"
+      | _, _ => "unparsed")
 
 def runClock (case impl : String) : String × String :=
   let toks := words case
